@@ -375,6 +375,15 @@ impl World {
         }
         _ => form,
       };
+      // at most one self-types pragma / jsx import source pragma per module
+      // (the analyser takes the first; which one wins is not part of any statement)
+      let form = if matches!(form, Form::SelfTypes | Form::JsxPragma)
+        && edges.iter().any(|e: &Edge| e.src == src && e.form == form)
+      {
+        Form::Import
+      } else {
+        form
+      };
       edges.push(Edge { src, form, dst, aux });
     }
     let types_header = if remote && pick("types_header", 2) == 1 {
@@ -594,17 +603,18 @@ impl World {
     self.edges.iter().enumerate().any(|(i, e)| {
       e.form == Form::ImportSource
         && match e.dst {
+          // the error entry is written at the *requested* specifier (or at
+          // what an already recorded redirect of it points to)
           Target::Spec(d) => {
-            let d = self.final_target(d);
             self.kinds[d] != Kind::Wasm
               && (d < self.n_roots
                 || self.edges.iter().enumerate().any(|(j, o)| {
                   j != i
-                    && (matches!(o.dst, Target::Spec(x) if self.final_target(x) == d)
-                      || (o.form == Form::TsTypesPragma && self.final_target(o.aux) == d))
+                    && (matches!(o.dst, Target::Spec(x) if x == d)
+                      || (o.form == Form::TsTypesPragma && o.aux == d))
                 })
-                || self.types_header.is_some_and(|(_, t)| self.final_target(t) == d)
-                || (0..self.kinds.len()).any(|k| self.kinds[k] == Kind::Redirect && self.final_target(k) == d && k != d))
+                || self.types_header.is_some_and(|(_, t)| t == d)
+                || (0..self.kinds.len()).any(|k| k != d && self.kinds[k] == Kind::Redirect && self.redirect_to[k] == d))
           }
           _ => false,
         }
